@@ -1,12 +1,18 @@
 /-
   Driver for the C18 streams.
-    {"op":"fold","events":[…],"nb_threads":n}          → {"ok": report} | {"err": pyClass, "at": index}
+    {"op":"fold","events":[…],"nb_threads":n}
+        → {"ok": report} | {"err": pyClass, "at": index};  plus "grammar": {"lenient","prefix","complete","sequential"}
+    {"op":"replay","report":R,"now":ms,"tid":n,"nb_threads":n}
+        → {"events":[…], "fold": {"ok": report}|{"err":…}, "exact": bool, "names_ok": bool, "image_agrees": bool, "grammar": {…}}
   Run: `lake env lean --run drivers/C18.lean`
 -/
 import LccModel.Proto
 import LccModel.ProtoReport
 import LccModel.Model.Writer
-open Lean LccModel LccModel.Proto LccModel.ProtoReport LccModel.Report LccModel.Writer
+import LccModel.Model.Grammar
+import LccModel.Model.Replay
+import LccModel.Lemmas.Writer
+open Lean LccModel LccModel.Proto LccModel.ProtoReport LccModel.Report LccModel.Writer LccModel.Replay
 
 def runIdx (w : WriterState) (es : List Event) (i : Nat) : Except (WriterErr × Nat) WriterState :=
   match es with
@@ -16,15 +22,43 @@ def runIdx (w : WriterState) (es : List Event) (i : Nat) : Except (WriterErr × 
     | .ok w' => runIdx w' rest (i + 1)
     | .error err => .error (err, i)
 
+def foldJson (r0 : Report) (es : List Event) : Json :=
+  match runIdx (initState r0) es 0 with
+  | .ok w => Json.mkObj [("ok", encReport w.report)]
+  | .error (e, i) => Json.mkObj [("err", Json.str e.pyClass), ("at", Json.num i), ("detail", Json.str (reprStr e))]
+
+def grammarJson (es : List Event) : Json :=
+  let complete := match Grammar.run .parallel Grammar.init es with
+    | some g => g.phase == .ended
+    | none => false
+  Json.mkObj [("lenient", Json.bool (Grammar.run .lenient Grammar.init es).isSome),
+              ("prefix", Json.bool (Grammar.run .parallel Grammar.init es).isSome),
+              ("complete", Json.bool complete),
+              ("sequential", Json.bool (Grammar.run .seq Grammar.init es).isSome)]
+
 def handle (j : Json) : Except String Json := do
   let op ← getStr j "op"
   match op with
   | "fold" =>
     let es ← decList decEvent (← field j "events")
     let nb ← getNat j "nb_threads"
-    match runIdx (initState { Report.empty with nbThreads := nb }) es 0 with
-    | .ok w => pure (Json.mkObj [("ok", encReport w.report)])
-    | .error (e, i) => pure (Json.mkObj [("err", Json.str e.pyClass), ("at", Json.num i), ("detail", Json.str (reprStr e))])
+    let r0 := { Report.empty with nbThreads := nb }
+    let disciplined := (runDisciplined (initState r0) es).isSome
+    match foldJson r0 es with
+    | .obj kvs => pure (Json.obj ((kvs.insert "grammar" (grammarJson es)).insert "disciplined" (Json.bool disciplined)))
+    | x => pure x
+  | "replay" =>
+    let r ← decReport (← field j "report")
+    let now ← getNat j "now"
+    let tid ← getNat j "tid"
+    let nb ← getNat j "nb_threads"
+    let r0 := { Report.empty with nbThreads := nb }
+    let es := replay now tid r
+    let agrees := match fold es r0 with
+      | .ok r' => encReport r' == encReport (replayImage now r0 r)
+      | .error _ => false
+    pure (Json.mkObj [("events", encList encEvent es), ("fold", foldJson r0 es), ("exact", Json.bool (replayExact r)),
+                      ("names_ok", Json.bool (namesOk r)), ("image_agrees", Json.bool agrees), ("grammar", grammarJson es)])
   | _ => throw s!"unknown op {op}"
 
 def main : IO Unit := loop (wrap handle)
